@@ -417,7 +417,7 @@ pub enum Source {
 
 pub const SCALED_KINDS: usize = 6;
 /// largest parameter per kind (chosen so that kiki, the reference and rustc stay within ~1 s / ~10 s)
-pub const SCALED_MAX: [usize; SCALED_KINDS] = [24, 300, 120, 50, 60, 40];
+pub const SCALED_MAX: [usize; SCALED_KINDS] = [24, 300, 120, 100, 60, 40];
 pub const SCALED_NAMES: [&str; SCALED_KINDS] =
     ["expression-levels", "unit-chain", "many-terminals", "statement-kinds", "optional-layers", "long-rule"];
 
@@ -527,12 +527,16 @@ pub fn build(raw: &RawGrammar) -> (Spec, Source) {
             spec
         }
     };
-    if matches!(source, Source::SeedEdits | Source::SeedEditsRepair) {
+    // the upper half of a scaled family's size range is taken as it is: an unlucky edit of a 100-statement grammar
+    // costs kiki tens of seconds, and conflict repair re-analyses the grammar once per round
+    let big_scaled = matches!(source, Source::SeedEdits | Source::SeedEditsRepair)
+        && scaled_choice(raw).map_or(false, |(kind, k)| k > SCALED_MAX[kind] / 2);
+    if matches!(source, Source::SeedEdits | Source::SeedEditsRepair) && !big_scaled {
         for e in &raw.edits {
             apply_edit(&mut spec, *e);
         }
     }
-    if matches!(source, Source::RandomRepair | Source::SeedEditsRepair) {
+    if matches!(source, Source::RandomRepair | Source::SeedEditsRepair) && !big_scaled {
         repair(&mut spec, raw.repair.max(1));
     }
     spec.normalize();
